@@ -193,6 +193,57 @@ def pairs2():
                    "shape": f"pair2:{mop[0]}"}
 
 
+# --------------------------------------------------------------------------- function signatures (arity checks)
+
+SIG = lambda f, sig: {**f, "sig": sig}  # noqa: E731
+F2 = fn(["x", "k"], ["+", A(0), A(1)])
+F1 = fn(["x"], ["*", A(0), K(2)])
+F3 = fn(["x", "k", "p"], ["+", A(0), ["*", A(1), A(2)]])
+
+# (op, repair op | None): ops whose function has a stated signature [nargs, ndefaults|null, nkwonly, varargs]
+ARITY_OPS = [
+    (["add_derived", "n1", SIG(F2, [3, None, 0, False])], ["remove_derived", "n1"]),          # too many parameters
+    (["add_derived", "n1", SIG(F2, [1, None, 0, False])], ["update_derived", "n1", ["+", A(0), A(1)], None]),
+    (["add_derived", "n1", SIG(F2, [1, None, 0, True])], None),                               # *args: accepted
+    (["add_derived", "n1", SIG(F2, [2, 1, 0, False])], None),                                 # f(a0, a1=0.0)
+    (["add_derived", "n1", SIG(F2, [2, None, 1, False])], None),                              # f(a0, a1, *, k0=0.0)
+    (["add_derived", "n1", SIG(F1, [2, 1, 0, False])], ["update_derived", "n1", None, ["x", "k"]]),  # callable, yet rejected
+    (["update_derived", "dp", {"e": ["+", A(0), A(1)], "sig": [3, None, 0, False]}, None], ["update_derived", "dp", ["+", A(0), A(1)], None]),
+    (["update_derived", "dp", None, ["k"]], ["update_derived", "dp", None, ["p", "k"]]),      # args shrink, function stays
+    (["update_derived", "dv", A(0), None], ["update_derived", "dv", None, ["x"]]),              # one-parameter function, two args
+    (["add_reaction", "n1", {**SIG(F2, [3, None, 0, False]), "st": [["y", {"c": "1"}]]}], ["remove_reaction", "n1"]),
+    (["update_reaction", "r1", None, ["y"], None], ["update_reaction", "r1", A(0), None, None]),
+    (["update_reaction", "r1", {"e": A(0), "sig": [1, None, 0, True]}, None, None], None),
+    (["add_parameter", "n1", {"ia": SIG(fn(["k"], A(0)), [2, None, 0, False])}], ["update_parameter", "n1", V(1)]),
+    (["update_parameter", "q", {"ia": SIG(fn(["dd"], A(0)), [0, None, 0, False])}], ["scale_parameter", "k", "2"]),
+    (["update_variable", "z", {"ia": SIG(fn(["k"], A(0)), [2, None, 0, False])}], ["make_variable_static", "z", None]),
+    (["update_variable", "z", {"ia": SIG(fn(["k"], A(0)), [2, None, 0, False])}], ["make_variable_static", "z", "3"]),
+    (["add_variables", [["n1", V(1)], ["n2", {"ia": SIG(fn(["x"], A(0)), [2, None, 0, False]), "obj": True}]]],
+     ["update_variables", [["n2", V(2)]]]),
+    (["update_parameters", [["k", V(2)], ["q", {"ia": SIG(fn(["k"], A(0)), [3, 1, 0, False])}]]], ["scale_parameter", "q", "2"]),
+    (["add_readout", "n1", SIG(F1, [2, None, 0, False])], ["remove_readout", "n1"]),
+    (["add_readout", "n1", SIG(F3, [2, 1, 0, False])], None),     # nargs + len(defaults) == arity: accepted by the code
+    (["add_readout", "n1", SIG(F3, [1, 1, 2, False])], None),     # nargs + len(kwonly) == arity with defaults: accepted
+    (["add_readout", "n1", SIG(F3, [1, None, 2, False])], ["remove_readout", "n1"]),  # the same without defaults: rejected
+    (["add_readout", "n1", SIG(F3, [5, None, 0, True])], None),   # *args wins over everything
+]
+# cache-building queries that do not evaluate readouts, and two that build no cache at all
+ARITY_QS = [["q", "init"], ["q", "rhs", ["2", "1", "3"], "1"], ["q", "classes"], ["q", "args", None, "0"],
+            ["q", "argnames", ONLY("dvars")], ["q", "names", "readouts"], ["q", "argnames", ONLY("vars", "readouts")],
+            ["q", "stoich", ["1", "2"], "0"], ["q", "fluxestc", ROWS[:2]]]
+
+
+def arity_histories():
+    """build; [q]; op carrying a function with a stated signature; queries; repair; queries"""
+    k = 0
+    for op, repair in ARITY_OPS:
+        for q1 in (None, ARITY_QS[k % 4]):
+            qs = [ARITY_QS[(k + j * 2) % len(ARITY_QS)] for j in range(3)]
+            k += 1
+            mid = ([q1] if q1 else []) + [op] + qs + ([repair] + qs[:2] + [["q", "pvals"]] if repair else [])
+            yield {"ops": BASE + mid, "check_from": len(BASE), "stratum": "arity", "shape": f"arity:{op[0]}"}
+
+
 def triples(rng=None, n=None):
     """build; q; m1; m2; q over the reduced argument set (all of them, or a sample of n)"""
     ms = mut_ops(reduced=True)
@@ -335,7 +386,12 @@ def random_history(rng, length):
 
     def mkfn(n=None):
         n = n or rng.choice([1, 1, 2])
-        return fn(pick_args(n), rng.choice(EXPRS1 if n == 1 else EXPRS2))
+        f = fn(pick_args(n), rng.choice(EXPRS1 if n == 1 else EXPRS2))
+        if rng.random() < 0.04:
+            # a stated signature: rejected by the arity check (never called), or *args (callable with any number)
+            f["sig"] = rng.choice([[n + 1, None, 0, False], [n + 1, 1, 0, False], [n, None, 0, True], [0, None, 0, True],
+                                   [n, None, 1, False]])
+        return f
 
     def val():
         if rng.random() < 0.25 and usable():
@@ -349,7 +405,7 @@ def random_history(rng, length):
 
     def coef():
         if rng.random() < 0.3 and usable():
-            return mkfn(1)
+            return fn(pick_args(1), rng.choice(EXPRS1))
         return {"c": str(rng.choice([-2, -1, 1, 2, "1/2"]))}
 
     def st():
